@@ -415,4 +415,36 @@ Section WithFloat.
     split; [exact Qsy|]. split; [exact Qts|]. split; [exact Qdt|]. split; [exact Qtm|]. split; [reflexivity|]. split; [exact Qit|].
     repeat split; reflexivity.
   Qed.
+  (* ---- trajectories (as the dictionary save_rdtrajectory builds with the data in line) ---- *)
+  Definition trajectory_equiv (t t' : trajectory_obj F) : Prop :=
+    script_equiv (tr_script F t) (tr_script F t') /\ system_equiv (tr_system F t) (tr_system F t') /\ array_equiv (tr_data F t) (tr_data F t')
+    /\ array_equiv (tr_t F t) (tr_t F t') /\ tr_descr F t = tr_descr F t' /\ tr_option F t = tr_option F t' /\ tr_cgmap F t = tr_cgmap F t'.
+  Definition wf_trajectory (t : trajectory_obj F) : Prop :=
+    wf_script (tr_script F t) /\ wf_system (tr_system F t) /\ snd (snd (tr_data F t)) = dimAmount /\ snd (snd (tr_t F t)) = dimTime.
+
+  Lemma fields_of_read (sc : schema) (d : dict jv) vals : read_fields jv sc d = Ok vals -> map (fun syn => field jv syn d) sc = vals.
+  Proof. unfold read_fields. destruct (keys_ok jv sc d); [intros H; injection H as <-; reflexivity|discriminate]. Qed.
+
+  Theorem trajectory_roundtrip (t : trajectory_obj F) : wf_trajectory t ->
+    exists t', read_trajectory F parse_float zero one milli (write_trajectory F print_float zero wr t) = Ok t' /\ trajectory_equiv t t'.
+  Proof.
+    intros (Hsc & Hsy & Hd & Ht). unfold read_trajectory, write_trajectory.
+    assert (Hs : wf_schema schema_trajectory = true /\ forallb (fun syn : list str => match syn with [] => false | _ => true end) schema_trajectory = true
+                  /\ length schema_trajectory = 7%nat) by (vm_compute; repeat split).
+    destruct Hs as (Hwf & Hne & Hl). unfold wr at 1.
+    match goal with |- context [write_fields jv schema_trajectory ?vals] =>
+      assert (R : read_fields jv schema_trajectory (write_fields jv schema_trajectory vals) = Ok vals)
+        by (apply (write_then_read jv schema_trajectory vals Hwf); [cbn [length]; rewrite Hl; reflexivity|apply nonempty_of_forallb; exact Hne]);
+      rewrite (fields_of_read schema_trajectory _ _ R); clear R
+    end.
+    destruct (script_roundtrip _ Hsc) as (sc' & Esc & Qsc). rewrite Esc.
+    destruct (system_roundtrip default_usys _ Hsy) as (sy' & Esy & Qsy). rewrite Esy.
+    destruct (unitarray_roundtrip dimAmount _ Hd) as (d' & Ed & Qd). rewrite Ed.
+    destruct (unitarray_roundtrip dimTime _ Ht) as (t' & Et & Qt). rewrite Et.
+    destruct (tr_cgmap F t) as [m|] eqn:Ecg; cbn [option_map].
+    - rewrite read_list_ints. eexists. split; [reflexivity|]. unfold trajectory_equiv. cbn [tr_script tr_system tr_data tr_t tr_descr tr_option tr_cgmap].
+      rewrite Ecg. repeat (split; [first [assumption|reflexivity]|]). reflexivity.
+    - eexists. split; [reflexivity|]. unfold trajectory_equiv. cbn [tr_script tr_system tr_data tr_t tr_descr tr_option tr_cgmap].
+      rewrite Ecg. repeat (split; [first [assumption|reflexivity]|]). reflexivity.
+  Qed.
 End WithFloat.
